@@ -20,7 +20,8 @@ LEVEL_TEXT = ("Lean 4 theorems, for every residual vector / table, candidate and
               "candidates — separately for time and space with their own offsets.  The model is tied to /repo on "
               "every run by exact differential execution (candidates, residuals and chosen indices through the "
               "guarded hook; residuals recomputed exactly from the polynomial network), and Holds.C17 is evaluated on "
-              "the implementation's own histories.")
+              "the implementation's own histories."
+              "  Holds.C17 itself is proved of every record of every history of refinement steps interleaved with draws and reshuffles of the model, for the three generator kinds (holdsC17_model_history, holdsC17_model_step).")
 LEVEL_NOTE = ("Trusted: Lean kernel + {propext, Classical.choice, Quot.sound}; the hand-written selection/store "
               "model's tie to the code is differential (sees the generated sizes and histories); the PRNG is an oracle: "
               "candidates come from the hook (their membership in the domain is checked), a reshuffle is the observed "
